@@ -307,9 +307,20 @@ Section WritePath.
     end.
 
   (* ---------------- a committed transaction ---------------- *)
-  (* OpenTransaction has flushed the memdbs (both empty or absent); the records go into the transaction's own memdb at
-     db.seq+1.., which Commit flushes into one table added at level 0 by a record committed with trivial = false *)
+  (* OpenTransaction has flushed the memdbs (rotateMem(0, true): no frozen memdb, an empty live one — otherwise the step
+     is not enabled); the records go into the transaction's own memdb at db.seq+1.., which Commit flushes into one table
+     added at level 0 by a record committed with trivial = false *)
+  Definition mem_is_empty (d : option MemDB.db) : bool :=
+    match d with
+    | None => true
+    | Some m => match mem_iter_all m with Some [] => true | _ => false end
+    end.
+
   Definition b_txn_commit (recs : list brec) (hs : list N) (num : N) (seq : N) (st : bstate) : option bstate :=
+    if negb (mem_is_empty (bs_mem st)) then None
+    else match bs_frozen st with
+    | Some _ => None
+    | None =>
     match MemDB.mdb_new mp with
     | MemDB.Ok d0 =>
         match batch_putmem p icr mp (batch_of p recs) (seq + 1) d0 hs with
@@ -326,6 +337,7 @@ Section WritePath.
         | _ => None
         end
     | _ => None
+    end
     end.
 
   (* ---------------- the machine ---------------- *)
